@@ -216,11 +216,22 @@ var c02Deterministic = hx.Define("c02.entry-points", func(c *c02Case, s *hx.Sub)
 		return nil
 	}
 	steps := []func() *hx.Violation{}
-	for i := 0; i < 8; i++ {
+	// the same bindings value handed to several renders ("earlier activity" must not matter) ...
+	shared := binds()
+	for i := 0; i < 3; i++ {
+		steps = append(steps, func() *hx.Violation {
+			return add("Template.Render (same template, same bindings value)", func() (string, error) { return str(tpl.Render(shared)) })
+		})
+	}
+	// ... and freshly built equal bindings
+	for i := 0; i < 6; i++ {
 		steps = append(steps, func() *hx.Violation {
 			return add("Template.Render (same template)", func() (string, error) { return str(tpl.Render(binds())) })
 		})
 	}
+	steps = append(steps, func() *hx.Violation {
+		return add("Engine.ParseAndRender (bindings value used before)", func() (string, error) { return str(engine().ParseAndRender([]byte(src), shared)) })
+	})
 	steps = append(steps,
 		func() *hx.Violation {
 			return add("Template.RenderString", func() (string, error) { o, e := tpl.RenderString(binds()); return o, errOrNil(e) })
@@ -484,14 +495,14 @@ func TestC02(t *testing.T) {
 	col.Corpus()
 	env := col.Env
 
-	det := c02Deterministic.On(col, fmt.Sprintf("rapid: generated programs over bindings that carry a map of 2..12 entries, followed by 1..4 of %d snippets that iterate, convert, filter, print or serialise maps (string-, int- and mixed-keyed, nested in arrays, inside Drops and structs) and pointer-bearing values; each case is rendered ~21 times - Render x8 on one parsed template, RenderString, FRender, 3 fresh parses, 3 fresh engines, ParseAndRender, ParseAndRenderString, ParseAndFRender, and (for a subset) once in a fresh process - every time against freshly realised bindings whose maps are built in a different insertion order and capacity while all earlier realisations stay alive (so fresh allocations get other addresses). Oracle: identical bytes, or the identical error string. Non-trivial: the template consumes the map (>= 2 entries); distinct by template+bindings", len(c02Snippets)), false)
+	det := c02Deterministic.On(col, fmt.Sprintf("rapid: generated programs over bindings that carry a map of 2..12 entries, followed by 1..4 of %d snippets that iterate, convert, filter, print or serialise maps (string-, int- and mixed-keyed, nested in arrays, inside Drops and structs) and pointer-bearing values; each case is rendered ~23 times - Render x3 on one parsed template with one bindings value, x6 with fresh ones, RenderString, FRender, 3 fresh parses, 3 fresh engines, ParseAndRender, ParseAndRenderString, ParseAndFRender, and (for a subset) once in a fresh process - every time against freshly realised bindings whose maps are built in a different insertion order and capacity while all earlier realisations stay alive (so fresh allocations get other addresses). Oracle: identical bytes, or the identical error string. Non-trivial: the template consumes the map (>= 2 entries); distinct by template+bindings", len(c02Snippets)), false)
 	prof := hx.FullProfile()
 	prof.BigMaps, prof.MapLoops, prof.Tablerow, prof.MaxNodes = true, true, true, 8
 	nChild := 0
-	col.Rapid(det.Sub, env.PerShard(env.Pick(3000, 150000)), func(t *rapid.T) {
+	col.Rapid(det.Sub, env.PerShard(env.Pick(20000, 200000)), func(t *rapid.T) {
 		c := &c02Case{P: hx.GenProgram(t, prof), Strict: rapid.IntRange(0, 5).Draw(t, "strict") == 0}
 		c.Extra = rapid.SliceOfN(rapid.IntRange(0, len(c02Snippets)-1), 1, 4).Draw(t, "extra")
-		if rapid.IntRange(0, 60).Draw(t, "child") == 0 && nChild < env.Pick(40, 600) {
+		if rapid.IntRange(0, 60).Draw(t, "child") == 0 && nChild < env.Pick(60, 600) {
 			c.Child = true
 			nChild++
 		}
@@ -510,7 +521,7 @@ func TestC02(t *testing.T) {
 	cli := c02CLI.On(col, "rapid: templates over environment variables only (all values are strings), run through the built cmd/liquid binary with --env (template on stdin and as a file argument, with and without --strict) and through Engine.ParseAndRenderString with the same variables; oracle: same stdout, or the library's error message on stderr with a non-zero exit and empty stdout. Distinct by template+environment+mode", false)
 	pieces := []string{"{{ VS_A }}", "{{ VS_B | upcase }}", "{% if VS_A == VS_B %}eq{% else %}ne{% endif %}", "{{ VS_A | append: VS_B | size }}", "{% assign x = VS_B | split: ',' %}{% for p in x %}[{{ p }}]{% endfor %}", "text ", "\n", "{{ VS_MISSING }}", "{{ VS_A | truncate: 4 }}", "{% capture c %}{{ VS_A }}{{ VS_A }}{% endcapture %}{{ c | size }}", "{{ VS_A | nosuchfilter }}", "{% endif %}", "{{ 'x' | divided_by: 0 }}", "{{ VS_B | escape }}"}
 	vals := []string{"", "a", "A,b,,c", "héllo wörld", " padded ", "<b>&</b>", "12", "line1\\nline2"}
-	col.Rapid(cli.Sub, env.PerShard(env.Pick(160, 4000)), func(t *rapid.T) {
+	col.Rapid(cli.Sub, env.PerShard(env.Pick(600, 6000)), func(t *rapid.T) {
 		c := &c02CLICase{Src: strings.Join(rapid.SliceOfN(rapid.SampledFrom(pieces), 1, 6).Draw(t, "src"), ""),
 			Env:    map[string]string{"VS_A": rapid.SampledFrom(vals).Draw(t, "a"), "VS_B": rapid.SampledFrom(vals).Draw(t, "b")},
 			Strict: rapid.IntRange(0, 3).Draw(t, "strict") == 0, File: rapid.Bool().Draw(t, "file")}
